@@ -13,6 +13,7 @@ import (
 	"github.com/ovn-org/libovsdb/server"
 
 	"vh/abs"
+	"vh/proxy"
 	"vh/rectxn"
 )
 
@@ -177,7 +178,18 @@ func RunSchedule(b *abs.Built, tok *abs.Tokens, dir string, steps []Step, method
 	if err := rec.Emit(map[string]interface{}{"ev": "reset", "db": 0}); err != nil {
 		return nil, err
 	}
-	cli, err := NewClient(1, in.Ctx, in.Sock, false)
+	sock := in.Sock
+	if methods["m1"] == "monitor_cond_since" && methods["m2"] == "monitor_cond_since" {
+		// behind the proxy's since mode the server sends update3 with transaction ids (one id per transaction)
+		px, err := proxy.New(in.Sock+".px", in.Sock)
+		if err != nil {
+			return nil, err
+		}
+		defer px.Close()
+		px.Since(true)
+		sock = px.Path
+	}
+	cli, err := NewClient(1, in.Ctx, sock, false)
 	if err != nil {
 		return nil, err
 	}
